@@ -11,5 +11,4 @@ CONSTANTS
   MaxHist = 3
 INVARIANT HTypeOK
 INVARIANT AnswerOfLast
-INVARIANT AnswersFitOracle
 PROPERTY HistoryIndependent
